@@ -139,7 +139,7 @@ func extConfigs(tier string) []*acfg {
 	mk := func(name, kind string, b, f int, sizes, ks []int) *acfg {
 		return &acfg{Name: name + "+rel", Kind: kind, Buf: b, Free: f, Sizes: uniq(sizes), Ks: uniq(ks), Ext: true, RelMax: relMax, RelWide: wide}
 	}
-	return []*acfg{
+	base := []*acfg{
 		mk("pooled(8,32)", "pooled", 8, 32, []int{0, 1, 8, 9, 32, 33}, []int{1, 9}),
 		mk("pooled(64,64)", "pooled", 64, 64, []int{0, 1, 64, 65}, []int{1, 65}),
 		mk("pooled(1024,1073741824)", "pooled", 1024, 1<<30, []int{0, 1, 1024, 1025}, []int{1, 1025}),
@@ -149,4 +149,15 @@ func extConfigs(tier string) []*acfg {
 		mk("aligned@32K", "aligned", 0, 0, []int{0, 1, 100, 32768, 32769}, []int{1, 33}),
 		mk("std", "std", 0, 0, []int{0, 1, 10, 64, 100}, []int{1, 64}),
 	}
+	// API surface as a dimension: every search of this list also runs through the package-level
+	// functions (mempool.Malloc / Realloc / Append / AppendString / Free) with DefaultMemPool set
+	// to the allocator (acfg.Pkg)
+	out := append([]*acfg(nil), base...)
+	for _, c := range base {
+		pc := *c
+		pc.Pkg = true
+		pc.Name = c.Name + "/pkg"
+		out = append(out, &pc)
+	}
+	return out
 }
